@@ -80,8 +80,8 @@ def assign_rules(typed):
         Rule("R6", "ty . as_span ( )", "as_span ( & ty )", why="pest API abstract"),
         Rule("R6", "input . as_span ( )", "as_span ( & input )", why="pest API abstract"),
         Rule("R6", "Self :: ident ( ident ) . to_err_vec ( ) ?", "parse_ident ( ident ) ?", why="sub-parser abstract"),
-        Rule("R6", "input . user_data ( ) . has_name_been_mapped_in_function ( ident . name ( ) )", "has_name_been_mapped_in_function ( & input , & ident . name )", why="scope lookup abstract"),
-        Rule("R6", "input . user_data ( ) . get_ident_from_name_local ( ident . name ( ) )", "get_ident_from_name_local ( & input , & ident . name )", why="scope lookup abstract"),
+        Rule("R6", "input . user_data ( ) . has_name_been_mapped_in_function ( $i . name ( ) )", "has_name_been_mapped_in_function ( & input , & $i . name )", why="scope lookup abstract"),
+        Rule("R6", "input . user_data ( ) . get_ident_from_name_local ( $i . name ( ) )", "get_ident_from_name_local ( & input , & $i . name )", why="scope lookup abstract (innermost scope only)"),
         Rule("R6", "input . user_data ( ) . get_dependency_flags_from_name ( ident . name ( ) ) . map ( | x | x . 0 . to_owned ( ) )", "get_dependency_ident_from_name ( & input , & ident . name )", why="scope lookup abstract (the ident of the pair)"),
         Rule("R1", ". map ( | x | x . to_owned ( ) )", "", why="Option<&Ident> -> Option<Ident>: the abstract lookup already returns an owned ident"),
         Rule("R1", ". map ( | $v | $v . clone ( ) )", "", why="Option<&Ident> -> Option<Ident>"),
@@ -335,8 +335,8 @@ def build_number_loop(repo):
     rules = [
         Rule("R3", "return Err ( vec ! [ new_err ( $$a ) ] ) ;", "return Err ( VErr ) ;", why="diagnostic dropped"),
         Rule("R9", "name . as_ref ( ) . and_then ( | ( ident , _ ) | { $$b } )", "match & name { Some ( ( ident , _ ) ) => { $$b } , None => None }", why="Option::and_then with a closure -> match"),
-        Rule("R6", "input . user_data ( ) . has_name_been_mapped_in_function ( ident . name ( ) )", "has_name_been_mapped_in_function ( & input , & ident . name )", why="scope lookup abstract"),
-        Rule("R6", "input . user_data ( ) . get_ident_from_name_local ( ident . name ( ) )", "get_ident_from_name_local ( & input , & ident . name )", why="scope lookup abstract"),
+        Rule("R6", "input . user_data ( ) . has_name_been_mapped_in_function ( $i . name ( ) )", "has_name_been_mapped_in_function ( & input , & $i . name )", why="scope lookup abstract"),
+        Rule("R6", "input . user_data ( ) . get_ident_from_name_local ( $i . name ( ) )", "get_ident_from_name_local ( & input , & $i . name )", why="scope lookup abstract (innermost scope only)"),
         Rule("R1", ". map ( | $v | $v . clone ( ) )", "", why="Option<&Ident> -> Option<Ident>: the abstract lookup already returns an owned ident"),
         Rule("R1", ". cloned ( )", "", why="Option<&Ident> -> Option<Ident>"),
         Rule("R6", "! collision . ty ( ) . unwrap ( ) . eq_complex ( & step_output_type , & TypecheckFlags :: < & ClassType > :: classless ( ) , )",
@@ -408,7 +408,8 @@ def build_assignment_tail(repo):
     check_closed(b, "assignment[tail]")
     gen = header(log, f"{ASG}: Parser::assignment, from the checks against the previous declaration to the end") + prelude("parser.rs") + ASG_SPEC + f"""
 //@ OBL C10.assignment.const-test
-pub fn assignment_tail(input: Node, x: AssignmentM, did_exist_before: Option<Ident>, is_modify: bool, self_type: Option<&ClassType>) -> (r: Result<AssignmentM, VErr>)
+pub fn assignment_tail(input: Node, x: AssignmentM, did_exist_before: Option<Ident>, is_modify: bool, is_const: bool, is_export: bool, self_type: Option<&ClassType>) -> (r: Result<AssignmentM, VErr>)
+    // (is_const / is_export: the declaration's own qualifiers, locals of Parser::assignment in scope here -- the const test must not depend on them)
     requires
         forall|i: int| 0 <= i < x.idents@.len() ==> (#[trigger] x.idents@[i]).ty is Some,      // assignment_* link a type to every declared ident
         did_exist_before is Some ==> did_exist_before->Some_0.ty is Some,                      // registered idents are typed
